@@ -384,13 +384,17 @@ def check(ctx):
             with open(out) as f:
                 ctx.sample({"kind": "recorded line (random driver through MockExchange::run)", "line": json.loads(f.readlines()[3])})
         validate(ctx, concat(ctx, "trace_%s.ndjson" % mode, parts), mode, mode)
-    burst_bite(ctx)
-    # vacuity: bursts must really have been recorded and validated, in every shape the extension is about
-    bc = ctx.cov.get("bursts", {})
-    for k in ("validated", "two_or_more_accepted_spending_one_asset", "accepted_then_rejected_for_funds",
-              "query_between_two_accepted", "queued_before_the_exchange_started"):
-        if not bc.get(k):
-            raise vlib.ToolError("no burst of kind `%s` was recorded: the burst stage is vacuous" % k)
+    # the self-test and the vacuity census presuppose recorded bursts that ARE behaviours of the specification: when the
+    # implementation has already been found to deviate, the verdict stands and they are skipped (a deviation must end
+    # in VIOLATION, never in a tool error of a self-test that re-uses the deviating recording)
+    if not PENDING and not ctx.violations:
+        burst_bite(ctx)
+        # vacuity: bursts must really have been recorded and validated, in every shape the extension is about
+        bc = ctx.cov.get("bursts", {})
+        for k in ("validated", "two_or_more_accepted_spending_one_asset", "accepted_then_rejected_for_funds",
+                  "query_between_two_accepted", "queued_before_the_exchange_started"):
+            if not bc.get(k):
+                raise vlib.ToolError("no burst of kind `%s` was recorded: the burst stage is vacuous" % k)
     flush(ctx)
     return ctx.finish()
 
